@@ -75,7 +75,7 @@ Reset ==
   /\ LET st == InitState(epoch + 1)
          b  == Mismatch(Ev.init, "ok", st.tape, st.tend, st.index)
      IN /\ tape' = st.tape /\ tend' = st.tend /\ index' = st.index /\ ref' = st.ref
-        /\ narch' = 1 /\ epoch' = epoch + 1
+        /\ narch' = 1 /\ epoch' = epoch + 1 /\ hs' = << >>
         /\ last' = Obs(C("Init", Root, Root, "", 0), "ok", FALSE, 1)
         /\ skip' = (b # {})
         /\ (b # {} => PrintT(<<"DIVERGE", l, b>>))
